@@ -500,8 +500,9 @@ func init() {
 		Trigger:  triggerData,
 	})
 	register(&SimProp{
-		ID:       "C03",
-		Profiles: []*Profile{dataProfile("c03-customs", map[string]int{"trigburst": 6, "refburst": 4, "custom": 45, "mutate": 14, "reaccess": 4, "qevent": 2, "sysreset": 4})},
+		ID: "C03",
+		Profiles: []*Profile{dataProfile("c03-customs", map[string]int{"trigburst": 6, "refburst": 4, "custom": 45, "mutate": 14, "reaccess": 4, "qevent": 2, "sysreset": 4}),
+			dataProfile("c03-refstates", map[string]int{"refburst": 14, "custom": 20, "mutate": 12, "subscribe": 18, "answer": 30})},
 		Config:   graphConfig,
 		Monitors: func() []Monitor { return []Monitor{NewMonC03()} },
 		Trigger:  triggerData,
@@ -620,7 +621,7 @@ func triggerData(w *World, v Violation) string {
 		target = v.Other
 	}
 	switch v.Class {
-	case "subscribe_without_data", "get_without_data", "resource_response_without_data", "dangling_reference", "stray_event":
+	case "subscribe_without_data", "get_without_data", "resource_response_without_data", "dangling_reference", "stray_event", "event_before_handover":
 		for _, d := range c.Ref.DropLog {
 			if d.RID != target || d.T > v.T || d.Cause == "get" {
 				continue
